@@ -36,6 +36,7 @@ RULE = ("configs drawn from test x estimator/bet x N in {n, n+1, 2n, 10n, inf} x
         "then more; upper bounds below 1 (3/4, 7/8, 5/8, 1/2, 2/3); non-trivial = "
         "status ok, length >= 2 and the history is not constantly 1; distinct = distinct canonical input")
 EXHAUSTIVE = {"quick": False, "thorough": False}
+RULE += "; option stream (n/12 more cases, own generator, OPTIONS_AUDIT.md): constructor arguments that equal their defaults left out of the call (NonnegMean() = alpha_mart, u=1, N=inf, t=1/2, random_order=True), samples handed over as Python lists / tuples (alpha_mart, betting_mart, kaplan_kolmogorov, estimators, bets), conversions called with Python floats"
 
 TESTS = ["alpha_mart", "betting_mart", "kaplan_kolmogorov", "kaplan_markov", "kaplan_wald", "wald_sprt"]
 ESTIMS = [None, "fixed_alternative_mean", "shrink_trunc", "optimal_comparison"]
